@@ -1,6 +1,8 @@
 # C09: schema compilers emit Go code that implements the schema.
 #   run_tl(ck)   TL half: tl/parser (spec/TlSem.tla, spec/gen/TlShape_Gen.tla, spec/trace/TlSem_Trace.tla)
 #   run_tlb(ck)  TL-B half: tlb/parser (spec/TlbMini.tla, spec/gen/TlbShape_Gen.tla incl. its Either and unnamed-field families, spec/trace/TlbMini_Trace.tla)
+#   run_hist(ck) generation is a function of its input: spec/GenHist.tla, spec/gen/GenHist_Gen.tla (histories of generator calls),
+#                spec/trace/GenHist_Trace.tla; harness/internal/c09/gen/hist.go runs each history in a process of its own
 import copy, json, os, re, shutil, sys
 import vlib
 from vlib import Infra, log
@@ -12,7 +14,10 @@ RULE = ("TL half. S->C (programs x inputs): TlShape_Gen (TLC) enumerates schema 
         "schema TLC emits values with the bytes TlSem!Enc requires. The runner renders the AST to .tl, runs /repo's tl/parser (twice: outputs must be "
         "identical), compiles all generated packages in one go build per batch (compile failure = violation), and the driver compares UnmarshalTL / "
         "MarshalTL / LiteapiRequestDecoder / request methods (request bytes handed to liteServerRequest, returned value or LiteServerErrorC) with the "
-        "vectors. C->S: random larger schemas (1..40 declarations, every flag bit 0..31, explicit random ids) -> generated code -> recorded Marshal / "
+        "vectors. Families F and L of TlShape_Gen are always included: F = conditional bytes / string / (vector int) / (vector t.inner) fields with a field after them "
+        "whose value is EMPTY while the bit is set (every value is marshalled with its empty slices as nil and as non-nil slices; TLC's `wrong` = the bytes with the "
+        "empty field left out is a canary for both judges); L = vectors on both sides of 64 KiB / (element size + 1) elements (int long int256 t.inner; thorough "
+        "Bool bytes) followed by a field and as last field, through UnmarshalTL / MarshalTL and the answer of a request method. C->S: random larger schemas (1..40 declarations, every flag bit 0..31, explicit random ids) -> generated code -> recorded Marshal / "
         "Unmarshal / Call events judged by TlSem_Trace with the schema carried in the segment's Reset event. distinct = vectors replayed + events accepted.")
 
 BUILTIN = ["int", "long", "int256", "bytes", "string", "Bool", "#"]
@@ -34,6 +39,9 @@ def camel(s):
 
 
 # ----------------------------------------------------------------------------------- schemas
+TFBASE, TLBASE = 9_000_000, 9_100_000     # TlShape_Gen!FBase, LBase
+
+
 def shape_numbers(ck):
     """which shapes TLC is asked for: quick 60 (40 single-field + 20 sequences), thorough 2000 (all 73 single-field + sequences)"""
     NA, NP, NB = 73, 18, 5
@@ -47,7 +55,10 @@ def shape_numbers(ck):
                 singles.append(NP + t * NB + (ck.seed + t + 2 * j) % NB)
         multi = 60 - len(singles)
     base = NA + (ck.seed % 1000) * 5000
-    return singles + [base + i for i in range(multi)]
+    # TlShape_Gen families: F (conditional bytes / string / vector fields with an EMPTY value while the bit is set, a field after them),
+    # L (vectors longer than 64 KiB / (element size + 1), a field after them / last; quick: int long int256 t.inner, thorough: + Bool bytes)
+    fam = [TFBASE + i for i in range(8)] + [TLBASE + i for i in range(12 if ck.thorough else 8)]
+    return singles + [base + i for i in range(multi)] + fam
 
 
 def gen_shapes(ck):
@@ -385,7 +396,14 @@ def run_tl(ck, mod):
                     continue
                 s = schemas[r_["schema"]]
                 v = s["vecs"][r_["vec"]]
-                ck.report(key_for(s, "codec:" + r_["op"]),
+                # classes of their own: only the nil-slice form of an empty value is mis-encoded; a vector of family L (long)
+                if r_.get("form") == "nil":
+                    key = "C09:tl:codec:%s:empty-value-held-as-nil-slice" % r_["op"]
+                elif TLBASE <= r_["schema"] < TLBASE + 12:
+                    key = "C09:tl:codec:%s:long-vector" % r_["op"]
+                else:
+                    key = key_for(s, "codec:" + r_["op"])
+                ck.report(key,
                           "generated code disagrees with the schema on schema %d (%s): %s; vector %s" % (
                               r_["schema"], ",".join(s["kinds"]), json.dumps({k: r_[k] for k in r_ if k in ("why", "got_hex", "got_v")})[:600], json.dumps(v)[:800]),
                           {"kind": "vector", "tl": s["text"], "ast": s["ast"], "vector": v, "got": r_})
@@ -446,6 +464,40 @@ def run_tl(ck, mod):
     vlib.write_ndjson(cp, [{"schema": sid0, "ast": s0["ast"], "vecs": [cv]}])
     vlib.sh([built[b0][0], "-mode", "replay", "-in", cp, "-out", co], cwd=ck.work, env=vlib.GOENV, timeout=300)
     ck.canary("S->C: one byte of an expected encoding flipped", not vlib.read_ndjson(co)[0]["match"])
+    # ---- family F: the bytes with the empty conditional field left out (TLC's `wrong`) are not an encoding of the value
+    def run_vecs(sid, vecs, tag):
+        bi = next(i for i, sids in enumerate(batches) if sid in sids)
+        cp, co = os.path.join(ck.work, "canary_%s.ndjson" % tag), os.path.join(ck.work, "canary_%s_out.ndjson" % tag)
+        vlib.write_ndjson(cp, [{"schema": sid, "ast": schemas[sid]["ast"], "vecs": vecs}])
+        vlib.sh([built[bi][0], "-mode", "replay", "-in", cp, "-out", co], cwd=ck.work, env=vlib.GOENV, timeout=300)
+        return [r_ for r_ in vlib.read_ndjson(co) if r_.get("k") != "End"]
+    fs = [(sid, v) for sid in sorted(schemas) if TFBASE <= sid < TFBASE + 8 and sid in usable for v in schemas[sid]["vecs"] if "wrong" in v]
+    if not fs:
+        raise Infra("family F produced no vector with an empty conditional field")
+    sidf, vf = fs[0]
+    got = run_vecs(sidf, [dict(copy.deepcopy(vf), hex=vf["wrong"], vec=0)], "fwrong")
+    ck.canary("S->C: expected bytes with the empty conditional field left out (schema %d)" % sidf, len(got) == 1 and not got[0]["match"])
+    reset = {"k": "Reset", "schema": schemas[sidf]["ast"], "note": "schema %d" % sidf}
+    mk = lambda hx: {"k": "Marshal", "ty": vf["ty"], "op": "Enc", "v": vf["v"], "hex": hx, "err": ""}
+    p = os.path.join(ck.work, "canary_fwrong_trace.ndjson")
+    vlib.write_ndjson(p, [reset, mk(vf["wrong"]), reset, mk(vf["hex"]), {"k": "End"}])
+    st, tr, ok, evs_ = ck.states, ck.transitions, ck.traces_ok, ck.evaluations
+    _, rej = ck.validate_segments("TlSem_Trace", "trace/TlSem_Trace.cfg", p, name="canary_fwrong")
+    ck.states, ck.transitions, ck.traces_ok, ck.evaluations = st, tr, ok, evs_
+    ck.canary("C->S marshal: recorded bytes with the empty conditional field left out (schema %d; the prescribed bytes pass)" % sidf,
+              [r_["line"] for r_ in rej] == [2])
+    # ---- family L: a long vector that comes back one element short is not the value
+    ls = [(sid, v) for sid in sorted(schemas) if TLBASE <= sid < TLBASE + 12 and sid in usable for v in schemas[sid]["vecs"][1:2]]
+    if not ls:
+        raise Infra("family L produced no usable schema")
+    sidl, vl = ls[0]
+    cv = copy.deepcopy(vl)
+    fld = next(k_ for k_, x in cv["v"].items() if isinstance(x, list))
+    cv["v"][fld] = cv["v"][fld][:-1]
+    got = run_vecs(sidl, [dict(cv, vec=0)], "lshort")
+    ck.canary("S->C: expected value of a long vector (%d elements) one element short (schema %d)" % (len(vl["v"][fld]), sidl), len(got) == 1 and not got[0]["match"])
+    ck.extra["families"] = {"F": sum(1 for sid in schemas if TFBASE <= sid < TFBASE + 8), "L": sum(1 for sid in schemas if TLBASE <= sid < TLBASE + 12),
+                            "L_lengths": sorted({len(x) for sid in schemas if TLBASE <= sid < TLBASE + 12 for v in schemas[sid]["vecs"] for x in v["v"].values() if isinstance(x, list)})}
     return nvec
 
 
@@ -830,6 +882,78 @@ def run_tlb(ck, mod):
                                            "canary_schema": next(l for l in schemas[sidw]["text"].splitlines() if l.startswith("main"))}
 
 
+# ----------------------------------------------------------------------------------- generation is a function of its input
+RULE_HIST = ("Generator histories (spec/GenHist.tla: one process = a state machine whose only action is Gen(call, out) with out = Pure[call] whatever the history). "
+             "GenHist_Gen (TLC) enumerates every history of 2..MaxLen calls over calls <compiler>|<schema>|<options> -- tlb/parser with a default generator, with "
+             "WithDefaultTypes(m, false) (m overrides default names and names a type the schema declares) and with WithDefaultTypes(m, true); tl/parser with the "
+             "default and with a caller-supplied type table. The runner executes each history in a process of its own and each call alone in a fresh process "
+             "(the reference, Pure); GenHist_Trace accepts a recorded call iff its output (sha256 of code and error) is the reference's.")
+HIST_SCHEMAS = {
+    "B1": "inner#a1 a:uint8 = Inner;\nmain#_ x:Grams y:Inner c:Coins b:Bool m:MsgAddress = Main;\n",
+    "B2": "other#_ q:Bool v:(Maybe ^Cell) g:Grams = Other;\n",
+    "T1": ("liteServer.error#bba9e148 code:int message:string = liteServer.Error;\np.a#0a0b0c0d x:int y:long z:bytes = p.A;\n"
+           "---functions---\np.f#01020304 = p.A;\n"),
+}
+
+
+def run_hist(ck, mod):
+    calls = ["tlb|B1|default", "tlb|B1|over", "tlb|B1|replace", "tlb|B2|default", "tl|T1|default", "tl|T1|custom"]
+    maxlen = 3
+    if ck.thorough:
+        calls += ["tlb|B2|over", "tlb|B2|replace"]
+        maxlen = 4
+    cfg = "CONSTANTS\n  Calls = {%s}\n  MaxLen = %d\nSPECIFICATION Spec\nINVARIANT Emit\nCHECK_DEADLOCK FALSE\n" % (", ".join('"%s"' % c for c in calls), maxlen)
+    p = os.path.join(ck.work, "GenHist_Gen.cfg")
+    open(p, "w").write(cfg)
+    res = ck.tlc_or_infra("GenHist_Gen", os.path.relpath(p, vlib.SPEC), name="genhist", timeout=900, heap_gb=3)
+    hists = sorted(v["hist"] for v in res.vecs())
+    want = sum(len(calls) ** n for n in range(2, maxlen + 1))
+    if len(hists) != want or len({tuple(h) for h in hists}) != want:
+        raise Infra("GenHist_Gen emitted %d histories, expected %d" % (len(hists), want))
+    ip, tp = os.path.join(ck.work, "hist_in.json"), os.path.join(ck.work, "hist_trace.ndjson")
+    json.dump({"schemas": HIST_SCHEMAS, "histories": hists}, open(ip, "w"))
+    pr = vlib.sh([os.path.join(mod, "gen"), "-hist", ip, tp], cwd=mod, env=vlib.GOENV, timeout=1800, check=False)
+    if pr.returncode != 0:
+        raise Infra("generator runner (history mode) failed:\n" + pr.stdout[-3000:])
+    evs = vlib.read_ndjson(tp)
+    refs = {}
+    for e in evs:
+        if e.get("k") == "Reset":
+            refs.update(e["ref"])
+    if set(refs) != set(calls) or len({refs[c] for c in calls if c.startswith("tlb|B1|")}) != 3 or len({refs[c] for c in calls if c.startswith("tl|")}) != 2:
+        raise Infra("history mode: the options do not produce different code for the same schema (the calls would not tell histories apart): %s" % refs)
+    _, rejected = ck.validate_segments("GenHist_Trace", "trace/GenHist_Trace.cfg", tp, timeout=900, name="genhist_trace")
+    told = []       # (compiler, options of the call, options used before it) already reported: longer histories containing them add nothing
+    for rj in sorted(rejected, key=lambda r: len(r["segment"])):
+        e, h = rj["event"], rj["segment"][0]["hist"]
+        comp, _, opt = e["call"].split("|")
+        before = sorted({c.split("|")[2] for c in h[:rj["accepted"] - 1] if c.split("|")[0] == comp} - {opt})
+        if any(c_ == comp and o_ == opt and set(b_) <= set(before) for c_, o_, b_ in told):
+            continue
+        told.append((comp, opt, before))
+        ck.report("C09:%s:history:%s-after-%s" % (comp, opt, "+".join(before) or "other-compiler"),
+                  "generation is not a function of its input: in the process history %s the call %s produced other code than the same call in a fresh process "
+                  "(err %r / fresh %r)\n--- fresh process\n%s\n--- in this history\n%s" % (h, e["call"], e.get("err"), e.get("ref_err"), e.get("ref_text", "")[:700], e.get("text", "")[:700]),
+                  {"kind": "history", "schemas": HIST_SCHEMAS, "hist": h, "call": e["call"]})
+    ck.extra["histories"] = {"calls": calls, "max_len": maxlen, "histories": len(hists), "processes": len(hists) + len(calls)}
+    ck.sample({"direction": "history", "hist": hists[len(hists) // 2], "ref": {c: refs[c][:16] for c in hists[len(hists) // 2]}})
+    # canaries (one TlbMini-style run, two segments): the output of the last call of a recorded history changed; a default generator
+    # answering with the code of the options used before it (what a leaking type table looks like)
+    c = copy.deepcopy(evs[:1 + len(evs[0]["hist"])])
+    c[-1]["out"] = flip_hex(c[-1]["out"])
+    c2 = [{"k": "Reset", "ref": {"tlb|B1|default": refs["tlb|B1|default"], "tlb|B1|over": refs["tlb|B1|over"]}, "hist": ["tlb|B1|over", "tlb|B1|default"], "note": "canary"},
+          {"k": "Gen", "call": "tlb|B1|over", "out": refs["tlb|B1|over"], "err": ""},
+          {"k": "Gen", "call": "tlb|B1|default", "out": refs["tlb|B1|over"], "err": ""}]
+    cp = os.path.join(ck.work, "canary_hist.ndjson")
+    vlib.write_ndjson(cp, c + c2 + [{"k": "End"}])
+    st, tr, ok, evn = ck.states, ck.transitions, ck.traces_ok, ck.evaluations
+    _, rej = ck.validate_segments("GenHist_Trace", "trace/GenHist_Trace.cfg", cp, name="canary_hist")
+    ck.states, ck.transitions, ck.traces_ok, ck.evaluations = st, tr, ok, evn
+    lines = sorted(r_["line"] for r_ in rej)
+    ck.canary("history: the output of the last call of a recorded history changed", len(c) in lines)
+    ck.canary("history: a default generator answering with the code of the options used before it", len(c) + 3 in lines and len(lines) == 2)
+
+
 def bad_what_of_kind(bad, schemas, kind):
     for sid, (what, _, _) in bad.items():
         if schemas[sid]["origin"] == "shape" and schemas[sid]["kinds"] == [kind]:
@@ -886,8 +1010,10 @@ def run(ck):
     run_tl(ck, mod)
     tl_extra, ck.extra = ck.extra, {}
     run_tlb(ck, mod)
-    ck.extra = {"tl": tl_extra, "tlb": ck.extra}
-    return ck.finish(rule=RULE + " " + RULE_TLB, distinct=ck.evaluations)
+    tlb_extra, ck.extra = ck.extra, {}
+    run_hist(ck, mod)
+    ck.extra = {"tl": tl_extra, "tlb": tlb_extra, "history": ck.extra}
+    return ck.finish(rule=RULE + " " + RULE_TLB + " " + RULE_HIST, distinct=ck.evaluations)
 
 
 def replay(ck, path):
@@ -898,6 +1024,17 @@ def replay(ck, path):
     mod = setup_module(ck)
     if rp["kind"].startswith("tlb-"):
         return replay_tlb(ck, mod, rp, path)
+    if rp["kind"] == "history":
+        ip, tp = os.path.join(ck.work, "hist_in.json"), os.path.join(ck.work, "hist_trace.ndjson")
+        json.dump({"schemas": rp["schemas"], "histories": [rp["hist"]]}, open(ip, "w"))
+        vlib.sh([os.path.join(mod, "gen"), "-hist", ip, tp], cwd=mod, env=vlib.GOENV, timeout=600)
+        _, rej = ck.validate_segments("GenHist_Trace", "trace/GenHist_Trace.cfg", tp, name="replay")
+        for rj in rej:
+            print("rejected:", json.dumps({k_: v_ for k_, v_ in rj["event"].items() if k_ not in ("text", "ref_text")}))
+        if rej:
+            print("VIOLATION property=C09 replay=%s" % path)
+            return 1
+        return 0
     text = rp.get("tl")
     if not text:
         raise Infra("replay file carries no schema")
